@@ -507,8 +507,9 @@ impl BtpInner {
             .session
             .is_ack_due(Instant::now(), self.ack_timeout_secs as _)
         {
+            // NOTE: `len` is 0 when our send window is exhausted (the peer owes us an ACK):
+            // the stand-alone ACK has to wait until the window re-opens.
             let len = self.session.prep_tx_data(&[], &mut 0, buf)?;
-            assert!(len > 0);
 
             return Ok(len);
         }
